@@ -44,6 +44,18 @@ class RenPolicy(P.PrinterPolicy):
             return False
         return PROCEED
 
+    def str_method(self, interp, recv, nm, args, kwargs):
+        # dotted.name.split('.') : only element 0 (the root module) is ever used by the renamer
+        if nm == 'split' and z3.is_expr(recv) and args == ['.']:
+            ctx = interp.ctx
+            root = z3.String('root_module_of_' + recv.decl().name())
+            dotted = z3.Contains(recv, z3.StringVal('.'))
+            ctx.assume(z3.Implies(z3.Not(dotted), root == recv))
+            ctx.assume(z3.Implies(dotted, z3.PrefixOf(z3.Concat(root, z3.StringVal('.')), recv)))
+            ctx.assume(z3.Not(z3.Contains(root, z3.StringVal('.'))))
+            return [root]
+        return PROCEED
+
     def attr(self, interp, obj, name):
         ctx = interp.ctx
         if isinstance(obj, Obj):
@@ -1121,3 +1133,156 @@ def task_reservation_scope():
         r1['functions'] += rr['functions']
         r1['notes'] += rr['notes']
     return r1
+
+
+# ---------------------------------------------------------------------------------------------------------------------
+# resolve_names: which binding every use is attached to, what gets pinned on the way   (C03)
+
+def task_resolve_names():
+    """resolve_names(node) for a symbolic node of every class (children by the recursive contract):
+       - a Name that is read is attached to get_binding(its id, its namespace), and to nothing else;
+       - a node that binds a name the class/function body also uses from outside (name in namespace.nonlocal_names) is attached to the binding
+         found by get_binding for that name;
+       - whenever such a node sits directly in a CLASS body, the binding found is pinned (the name becomes an attribute) AND the module level
+         binding of the same name is pinned: a class body looks a name up in the class, then in the module globals, never in the enclosing
+         function, so the global's name must survive (this clause is what known finding KF-17, repaired in f054637, violated);
+       - every child is visited."""
+    mod = source.import_module(RS)
+    bmod = source.import_module(RB)
+    import python_minifier.ast_compat as compat
+    name = 'C03/resolve_names'
+    BINDERS = {'ClassDef': 'name', 'FunctionDef': 'name', 'AsyncFunctionDef': 'name', 'ExceptHandler': 'name', 'MatchAs': 'name', 'MatchStar': 'name',
+               'MatchMapping': 'rest'}
+
+    def run(ctx):
+        policy = RenPolicy()
+        interp = Interp(ctx, policy=policy)
+        policy.interp = interp
+        root = ctx.new_node(set(tag_universe()['names']), name='node')
+        ns = make_namespace(ctx, 'ns', NAMESPACE_TAGS)
+        ctx.data(root).fields['namespace'] = ns
+        ev = []
+        glob_ns = Opaque('global_namespace_of_ns', sort='node')
+
+        def gb_hook(it, f, a, k):
+            b = ctx.new_obj('inst', bmod.NameBinding, name=ctx.fresh('found_binding'))
+            ctx.data(b).fields.update({'_name': a[0], '_allow_rename': z3.Bool(ctx.fresh('allow')), '_reserved': None, '_references': ctx.new_list([])})
+            ev.append(('get_binding', a[0], a[1], b))
+            return b
+        interp.hooks[RS + ':get_binding'] = gb_hook
+        interp.hooks[RU + ':get_global_namespace'] = lambda it, f, a, k: (ev.append(('global_of', a[0])), glob_ns)[1]
+        for k in bmod.NameBinding.__mro__:
+            if k.__module__.startswith('python_minifier'):
+                if 'add_reference' in k.__dict__:
+                    interp.hooks['%s:%s.add_reference' % (k.__module__, k.__name__)] = lambda it, f, a, kw: ev.append(('add_reference', a[0], a[1]))
+                if 'disallow_rename' in k.__dict__:
+                    interp.hooks['%s:%s.disallow_rename' % (k.__module__, k.__name__)] = lambda it, f, a, kw: ev.append(('pin', a[0]))
+
+        def rec_hook(it, f, a, k):
+            if a[0] == root:
+                return PROCEED
+            ev.append(('recurse', a[0]))
+            return None
+        interp.hooks[RS + ':resolve_names'] = rec_hook
+        children = ctx.new_obj('list', name='children')
+        cd = ctx.data(children)
+        cd.items = {}
+        cd.symlen = z3.Int('n_children')
+        ctx.assume(cd.symlen >= 0)
+        from pyvc.interp import _keyname
+        cd.elem_factory = lambda key: ctx.new_node(set(tag_universe()['names']), name='child_%s' % _keyname(key))
+        iter_calls = []
+        interp.natives[compat.iter_child_nodes] = lambda it, a, k: (iter_calls.append(a[0]), children)[1]
+        interp.call(interp.wrap(mod.resolve_names), [root], {})
+        rd = ctx.data(root)
+        nsd = ctx.data(ns)
+        in_class = nsd.tagvar == tag_const('ClassDef')
+        used_outside = z3.Bool('name_in_nonlocal_names_ns')
+        gets = [e for e in ev if e[0] == 'get_binding']
+        refs = [e for e in ev if e[0] == 'add_reference']
+        pins = [e[1] for e in ev if e[0] == 'pin']
+        local_gets = [e for e in gets if e[2] == ns]
+        global_gets = [e for e in gets if e[2] == glob_ns]
+        # every child is visited
+        ctx.check(name + '/children-come-from-iter_child_nodes-of-this-node', iter_calls == [root], kind='post', detail=repr(iter_calls))
+        for k, c in cd.items.items():
+            ctx.check(name + '/an-arbitrary-child-is-visited', ('recurse', c) in ev, kind='inv.step')
+        # references are only ever added for this node, to a binding obtained for this node's namespace
+        ctx.check(name + '/references-are-added-for-this-node-only', all(r[2] == root for r in refs), kind='frame', detail=repr(refs))
+        ctx.check(name + '/references-go-to-a-binding-looked-up-from-the-node-namespace', all(any(r[1] == g[3] for g in local_gets) for r in refs), kind='post',
+                  detail='get_binding calls %r' % ([(g[1], g[2]) for g in gets],))
+        if rd.tags != {'Nonlocal'}:
+            ctx.check(name + '/at-most-one-reference-per-node', len(refs) <= 1, kind='post')
+        tag = rd.tagvar
+        is_load = None
+        if rd.tags == {'Name'}:
+            cx = rd.fields.get('ctx')
+            if isinstance(cx, Obj):
+                cxd = ctx.data(cx)
+                is_load = cxd.tagvar == tag_const('Load')
+                is_store = cxd.tagvar == tag_const('Store')
+                if refs:
+                    g = [g for g in local_gets if g[3] == refs[0][1]]
+                    ctx.check(name + '/a-name-is-attached-under-its-own-identifier', bool(g) and z3.is_expr(g[0][1]) and g[0][1].eq(rd.fields.get('id')), kind='post')
+                    ctx.check(name + '/only-reads-and-names-shared-with-the-outside-are-attached', z3.Or(is_load, used_outside), kind='post')
+                else:
+                    ctx.check(name + '/every-read-is-attached-to-a-binding', z3.Not(is_load), kind='post', detail='a Name in Load context must be resolved')
+                    ctx.check(name + '/a-store-of-a-shared-name-is-attached', z3.Not(used_outside), kind='post')
+                if refs:
+                    stored_in_class = z3.And(z3.Not(is_load), is_store, in_class)
+                    pinned_local = refs[0][1] in pins
+                    pinned_global = any(g[3] in pins and z3.is_expr(g[1]) and g[1].eq(rd.fields.get('id')) for g in global_gets)
+                    if not (pinned_local and pinned_global):
+                        ctx.check(name + '/a-name-bound-in-a-class-body-pins-its-binding-and-the-global-of-the-same-name', z3.Not(stored_in_class), kind='post',
+                                  detail='binding pinned: %s, module-level binding of the same name pinned: %s' % (pinned_local, pinned_global))
+                    else:
+                        ctx.check(name + '/cover-class-store-pins', True, kind='cover')
+        elif len(rd.tags) == 1 and list(rd.tags)[0] in BINDERS:
+            fld = BINDERS[list(rd.tags)[0]]
+            nm = rd.fields.get(fld)
+            if refs:
+                g = [g for g in local_gets if g[3] == refs[0][1]]
+                ok = bool(g) and (g[0][1] is nm or (z3.is_expr(g[0][1]) and z3.is_expr(nm) and g[0][1].eq(nm)))
+                ctx.check(name + '/a-binder-is-attached-under-the-name-it-binds', ok, kind='post', detail='%r vs %r' % (g and g[0][1], nm))
+                ctx.check(name + '/binders-are-attached-only-for-names-shared-with-the-outside', used_outside, kind='post')
+                pinned_local = refs[0][1] in pins
+                pinned_global = any(g2[3] in pins and (g2[1] is nm or (z3.is_expr(g2[1]) and z3.is_expr(nm) and g2[1].eq(nm))) for g2 in global_gets)
+                if not (pinned_local and pinned_global):
+                    ctx.check(name + '/a-name-bound-in-a-class-body-pins-its-binding-and-the-global-of-the-same-name', z3.Not(in_class), kind='post',
+                              detail='binder %s: binding pinned: %s, module-level binding of the same name pinned: %s' % (sorted(rd.tags), pinned_local, pinned_global))
+            elif nm is not None:
+                ctx.check(name + '/a-binder-of-a-shared-name-is-attached', z3.Not(used_outside), kind='post')
+        elif rd.tags == {'alias'}:
+            asname = rd.fields.get('asname')
+            full = rd.fields.get('name')
+            if refs:
+                g = [g for g in local_gets if g[3] == refs[0][1]]
+                bound_name = g[0][1] if g else None
+                if asname is not None:
+                    ctx.check(name + '/an-import-with-as-is-attached-under-the-alias', z3.is_expr(bound_name) and bound_name.eq(asname), kind='post')
+                else:
+                    rootm = z3.String('root_module_of_' + full.decl().name())
+                    ctx.check(name + '/a-plain-import-is-attached-under-its-root-module', z3.is_expr(bound_name) and bound_name.eq(rootm), kind='post',
+                              detail='%r' % (bound_name,))
+                    if refs[0][1] not in pins:
+                        ctx.check('C04/resolve_names/a-dotted-import-pins-the-root-module-name', z3.Not(z3.Contains(full, z3.StringVal('.'))), kind='post')
+                ctx.check(name + '/binders-are-attached-only-for-names-shared-with-the-outside', used_outside, kind='post')
+                pinned_local = refs[0][1] in pins
+                pinned_global = any(g2[3] in pins and z3.is_expr(g2[1]) and z3.is_expr(bound_name) and g2[1].eq(bound_name) for g2 in global_gets)
+                if not (pinned_local and pinned_global):
+                    ctx.check(name + '/a-name-bound-in-a-class-body-pins-its-binding-and-the-global-of-the-same-name', z3.Not(in_class), kind='post',
+                              detail='import: binding pinned: %s, module-level binding of the same name pinned: %s' % (pinned_local, pinned_global))
+            else:
+                ctx.check(name + '/a-binder-of-a-shared-name-is-attached', z3.Not(used_outside), kind='post')
+        elif rd.tags == {'Nonlocal'}:
+            nl = rd.fields.get('names')
+            for k, nmv in (ctx.data(nl).items.items() if isinstance(nl, Obj) else []):
+                g = [g for g in local_gets if z3.is_expr(g[1]) and z3.is_expr(nmv) and g[1].eq(nmv)]
+                ok = bool(g) and any(r[1] == g[0][3] and r[2] == root for r in ev if r[0] == 'add_reference')
+                ctx.check(name + '/an-arbitrary-name-of-a-nonlocal-statement-is-attached-to-its-binding', ok, kind='inv.step')
+        elif not refs:
+            ctx.check(name + '/cover-no-reference', True, kind='cover')
+    ex = Explorer(max_paths=3000)
+    ex.explore(run)
+    return _finish(ex, name, [source.describe(RS + ':resolve_names'), source.describe(RS + ':get_binding_disallow_class_namespace_rename'),
+                              source.describe(RS + ':disallow_global_rename')])
